@@ -250,6 +250,12 @@ func rangeParts() []string {
 			out = append(out, strings.TrimSpace(p+" "+body))
 		}
 	}
+	// every documented month spelling (a between/and word may hide inside a month name, e.g. oc-to-ber)
+	for _, m := range monthWords {
+		if _, ok := ref.MonthNames[m]; ok {
+			out = append(out, applyCase(m, "Capital")+" 1900", "7 "+m+" 1900", "Bef. "+strings.ToUpper(m)+" 1900")
+		}
+	}
 	out = append(out, "", "x", "1900 x", "5 Jan 1900 and 6 Jan 1900", "to", "-")
 	return out
 }
